@@ -68,6 +68,41 @@ def run(ctx):
                 rep.check(not missing, "C04.R1", "total:other:%s" % f.id.replace("warp_core::", ""), "names all variants",
                           "%s matches WarpOp with a wildcard absorbing %s (unreviewed handler)" % (f.id, sorted(missing)), site=f.loc(f.block_line(bb)))
 
+    # ---- R7 canonical replay order key
+    sk = prog.fn(TP + "WarpOp::sort_key")
+    rep.rule("C04.R7", "A10 sort_key: phase constants distinct and in the documented order; per-variant identity fields")
+    KEY = TP + "WarpOpKey"
+    # confirmed by reading (doc comment of sort_key): instance/portal ops, then deletes before upserts, attachments last
+    PHASE = {"OpenPortal": 1, "UpsertWarpInstance": 2, "DeleteWarpInstance": 3, "DeleteEdge": 4, "DeleteNode": 5, "UpsertNode": 6, "UpsertEdge": 7, "SetAttachment": 8}
+    IDENT = {"OpenPortal": ({"f:key"}, {"f:key"}), "UpsertWarpInstance": ({"f:instance", "f:warp_id"}, set()), "DeleteWarpInstance": ({"f:warp_id"}, set()),
+             "DeleteEdge": ({"f:from"}, {"f:edge_id"}), "DeleteNode": ({"f:node", "f:local_id"}, set()), "UpsertNode": ({"f:node", "f:local_id"}, set()),
+             "UpsertEdge": ({"f:record", "f:from"}, {"f:record", "f:id"}), "SetAttachment": ({"f:key"}, {"f:key"})}
+    from ..guards import side_tokens
+    sws = enum_switches(sk, W)
+    got_phase = {}
+    if sws:
+        bb, arms, ow, _ = sws[0]
+        targets = set(arms.values())
+        for v, tgt in arms.items():
+            others = [x for x in targets if x != tgt]
+            reach = sk.reachable([tgt], avoid_blocks=others)
+            for b in reach:
+                for st_ in sk.blocks[b]["st"]:
+                    if st_[0] == "a" and st_[2]["r"] == "agg" and st_[2].get("adt") == KEY:
+                        m = dict(zip(st_[2]["fields"], st_[2]["os"]))
+                        got_phase[v] = const_int(m["kind"])
+                        ta, tb = side_tokens(sk, m["a"]), side_tokens(sk, m["b"])
+                        wa, wb = IDENT.get(v, (set(), set()))
+                        rep.check(wa <= ta and wb <= tb, "C04.R7", "sort_key:%s:identity" % v, "key.a/key.b carry %s / %s" % (sorted(wa), sorted(wb)),
+                                  "sort_key(%s): a derives from %s, b from %s; expected %s / %s (two distinct ops would share a key and be deduplicated)" % (
+                                      v, sorted(t for t in ta if t.startswith("f:")), sorted(t for t in tb if t.startswith("f:")), sorted(wa), sorted(wb)), site=sk.loc())
+                        tw = side_tokens(sk, m["warp"])
+                        rep.check(any(t in tw for t in ("f:warp_id", "f:key", "f:node", "f:instance")), "C04.R7", "sort_key:%s:warp-scoped" % v, "key.warp derives from the op's instance",
+                                  "sort_key(%s).warp does not derive from the op's instance id: %s" % (v, sorted(tw)), site=sk.loc())
+    for v, want in PHASE.items():
+        rep.check(got_phase.get(v) == want, "C04.R7", "sort_key:%s:phase" % v, "phase %d" % want,
+                  "sort_key(%s) has phase %s, documented order requires %d (instances before skeleton, deletes before upserts, attachments last)" % (v, got_phase.get(v), want), site=sk.loc())
+
     # ---- R2
     ao = prog.fn(TP + "apply_ops_to_state")
     tr, ext = tree(prog, [ao])
